@@ -345,6 +345,51 @@ func c12(x *mon.Ctx) {
 		x.Require("repeated-call", 4, 4, 16)
 	}
 
+	// ---- (b4) sequences over ONE PKI: an honest quote, then what changes between calls in production (a root CRL that now revokes
+	//      the collateral signer / the platform CA, a PCK CRL that revokes the leaf, out-of-date collateral, revocation switched
+	//      on and off) and, in every third sequence, a crowd of quotes whose intermediate CA merely LOOKS like the genuine one
+	//      (same name and key identifier, other key) BEFORE the first honest quote. Each step is judged on its own here;
+	//      the default-root phase then runs the whole sequence with no pool, the PKI's root as embedded root, through one
+	//      options value, forwards and backwards.
+	{
+		ns := x.Pick(6, 60)
+		x.Each(ns, func(i int) {
+			r := x.Rand(fmt.Sprint("one-pki", i))
+			w := richHonest(r)
+			w.Resign()
+			step := 0
+			run := func(w2 *world.World, lvl int, label, expect string) {
+				c := w2.Case(lvl, "one-pki-sequence/"+label, fmt.Sprintf("s%d/step%d", i, step))
+				step++
+				c.Expect, c.TwinKeep, c.ShadowSkip = expect, true, true
+				check(x, i, c)
+			}
+			if i%3 == 0 {
+				for k := 0; k < 104; k++ {
+					// a whole chain (consistent in itself) that copies the genuine chain's names, serials and key identifiers
+					lk := world.LookalikePKI(w.PKI, world.SgxExtension(w.P))
+					w5 := w.Clone()
+					w5.Q.Chain = world.ChainPEM(false, lk.Leaf, lk.Inter, lk.Root)
+					run(w5, world.LBase, "lookalike-platform-ca", "reject")
+				}
+				run(w, world.LCrl, "honest-after-lookalikes", "accept") // the genuine CA certificate is met only now
+			}
+			run(w, world.LCrl, "honest", "accept")
+			w2 := w.Clone()
+			w2.MakeCRLs([]*big.Int{w.PKI.TcbSign.Cert.SerialNumber}, nil)
+			run(w2, world.LCrl, "root-crl-revokes-signer", "reject")
+			run(w2, world.LColl, "root-crl-revokes-signer-revocation-off", "accept")
+			run(w, world.LCrl, "honest-again", "accept")
+			w3 := w.Clone()
+			w3.MakeCRLs([]*big.Int{w.PKI.Inter.Cert.SerialNumber}, nil)
+			run(w3, world.LCrl, "root-crl-revokes-platform-ca", "reject")
+			w4 := w.Clone()
+			w4.MakeCRLs(nil, []*big.Int{w.PKI.Leaf.Cert.SerialNumber})
+			run(w4, world.LCrl, "pck-crl-revokes-leaf", "reject")
+			run(w, world.LBase, "honest-base", "accept")
+		})
+	}
+
 	// ---- (c) histories through one shared Options value
 	nh := x.Pick(200, 5000)
 	x.Each(nh, func(i int) {
